@@ -46,6 +46,7 @@ const SUBJECT_CRATES: &[&str] = &["melstf::", "melvm::", "melstructs::", "tip911
 
 fn innermost_subject_frame() -> String {
     let bt = std::backtrace::Backtrace::force_capture().to_string();
+    if std::env::var("MCHECK_SHOW_BT").is_ok() { eprintln!("{}", bt); }
     for line in bt.lines() {
         let l = line.trim();
         // lines look like "12: melstf::state::melmint::process_swaps_for_single_pool"
